@@ -769,7 +769,9 @@ fn ramp_case(r: &mut Rng) -> Result<u64, String> {
 	let names = ["the sub-track's volume", "the send route's volume", "the send track's volume", "the main track's volume"];
 	let target = r.f64_in(-30.0, 0.0) as f32;
 	let dur = Duration::from_secs_f64(r.f64_in(0.5, 6.0) * ibs as f64 / sr as f64);
-	let tw = Tween { duration: dur, ..Default::default() };
+	// every easing curve (powers 1..8, in / out / in-out, integer and real): the model uses the reference curves of C06
+	let easing = if r.chance(0.35) { kira::Easing::Linear } else { crate::props::c06::gen_easing(r) };
+	let tw = Tween { duration: dur, easing, ..Default::default() };
 	match which {
 		0 => t.set_volume(Decibels(target), tw),
 		1 => t.set_send(send.id(), Decibels(target), tw).map_err(|_| "set_send")?,
@@ -791,7 +793,7 @@ fn ramp_case(r: &mut Rng) -> Result<u64, String> {
 			let n = ibs.min(n_cb - done);
 			let prev = cur;
 			time += n as f64 / sr as f64;
-			cur = if time >= d { target as f64 } else { start + (target as f64 - start) * (time / d) };
+			cur = if time >= d { target as f64 } else { start + (target as f64 - start) * crate::refmodel::ease_ref(easing, time / d) };
 			for i in 0..n {
 				// (a send route's volume is not interpolated: the whole chunk is sent at the value reached at the chunk's end)
 				vol[which] = if which == 1 { cur as f32 as f64 } else { ((prev + (cur - prev) * ((i + 1) as f64 / n as f64)) as f32) as f64 };
@@ -799,12 +801,39 @@ fn ramp_case(r: &mut Rng) -> Result<u64, String> {
 				let want = 0.25 * amp(vol[0]) * amp(vol[3]) * (1.0 + amp(vol[1]) * amp(vol[2]));
 				let got = out[(done + i) * 2] as f64;
 				if (got - want).abs() > 3e-5 * want {
-					return Err(format!("{} moved from {} dB to {} dB over {:?} (internal buffer {}, callbacks {:?}): frame {} of the last callback (frame {} of a chunk of {}) is {} instead of {} - the volume is interpolated over each chunk's own frames", names[which], start, target, dur, ibs, sizes, done + i, i, n, got, want));
+					return Err(format!("{} moved from {} dB to {} dB over {:?} with {:?} (internal buffer {}, callbacks {:?}): frame {} of the last callback (frame {} of a chunk of {}) is {} instead of {} - the volume is interpolated over each chunk's own frames", names[which], start, target, dur, easing, ibs, sizes, done + i, i, n, got, want));
 				}
 				frames += 1;
 			}
 			done += n;
 		}
+	}
+	// the same volume is then linked, through its handle and with a tween, to a modulator; after that tween has ended the
+	// modulator moves (instantly): the volume follows it from the next callback on
+	let mut tw_mod = rig.mgr.add_modulator(kira::modulator::tweener::TweenerBuilder { initial_value: 0.0 }).map_err(|_| "tweener")?;
+	let map = kira::Mapping { input_range: (0.0, 1.0), output_range: (Decibels(-24.0), Decibels(-3.0)), easing: kira::Easing::Linear };
+	let link = kira::Value::FromModulator { id: tw_mod.id(), mapping: map };
+	let ltw = Tween { duration: Duration::from_secs_f64(r.f64_in(0.0, 3.0) * ibs as f64 / sr as f64), ..Default::default() };
+	match which {
+		0 => t.set_volume(link, ltw),
+		1 => t.set_send(send.id(), link, ltw).map_err(|_| "set_send")?,
+		2 => send.set_volume(link, ltw),
+		_ => rig.mgr.main_track().set_volume(link, ltw),
+	}
+	for _ in 0..6 {
+		rig.callback(ibs);
+	}
+	let x = r.f64_in(0.2, 1.0);
+	tw_mod.set(x, Tween { duration: Duration::ZERO, ..Default::default() });
+	rig.callback(ibs);
+	rig.callback(ibs);
+	let out = rig.callback(ibs).to_vec();
+	vol[which] = (-24.0 + 21.0 * x) as f32 as f64;
+	let amp = |db: f64| 10f64.powf(db / 20.0);
+	let want = 0.25 * amp(vol[0]) * amp(vol[3]) * (1.0 + amp(vol[1]) * amp(vol[2]));
+	let got = out[out.len() - 2] as f64;
+	if (got - want).abs() > 3e-5 * want {
+		return Err(format!("{} linked through its handle (tween {:?}) to a tweener mapped 0..1 -> -24..-3 dB; the tween ended, then the tweener moved to {}: the output is {} instead of {} (the volume no longer follows the modulator)", names[which], ltw.duration, x, got, want));
 	}
 	Ok(frames)
 }
